@@ -6,7 +6,8 @@
    P_cs f : copyStruct (fuel f) into a destination struct of any section sizes writes the data
             words resized (truncated / zero-extended), the pointer words of the first
             min(ns, nd) children, null for the missing ones, and appends the children.
-   Domain of this file ([cvdom]): values built from structs and nulls, any depth, any sizes. *)
+   Domain of this file ([cvdom]): values built from structs (any sizes), nulls and data-only lists
+   (void, 1/2/4/8-byte, bit lists), any depth; not yet: pointer lists, struct lists, capabilities. *)
 From CV Require Import Value.ValueEq Value.ValueEqProofs Value.EqualM Value.Den Value.DenFacts Value.DenLists
                        Value.CanonSpec Value.CanonProofs3 Value.CanonM Value.CanonMStruct Value.CanonMData Value.CanonMHeap
                        Value.CanonMLoop Value.CanonMInd Value.CanonMListR Value.CopyValue Value.CopyValueHeap.
@@ -19,7 +20,10 @@ Fixpoint cvdom (v : value) : bool :=
   match v with
   | VNull => true
   | VStruct _ ps => forallb cvdom ps
-  | _ => false
+  | VBits _ => true
+  | VList LPtr _ | VList LComp _ => false
+  | VList _ _ => true
+  | VCap _ => false
   end.
 
 (* ------------------------------------------------------------------ words and bytes *)
@@ -119,7 +123,7 @@ Context (m : segs) (Hm : msg_ok m).
 
 Definition P_wp (f : nat) : Prop := forall D cap rl a src v fc w',
   hinv D -> 0 <= a -> a mod 8 = 0 -> a + 8 <= zlen D ->
-  wf_ptr m src -> aligned src -> den true m 0 [] src v -> cvdom v = true ->
+  wf_ptr m src -> aligned src -> caligned src -> den true m 0 [] src v -> cvdom v = true ->
   write_ptr f true (dstw D cap m rl) 0 a InSrc src fc = Ok w' ->
   exists word body cap' rl',
     w' = dstw (put_word D a word ++ body) cap' m rl' /\ hinv (D ++ body) /\
@@ -216,6 +220,7 @@ Proof.
       destruct (i >=? PointerCount (p_size s)) eqn:Eip; [unfold nmin, ns in *; lia|].
       cbn [cfg_strict] in SS. rewrite ER in SS. cbn in SS. apply SS. reflexivity. }
     assert (AP : aligned p0) by (eapply readPtr_aligned; exact ER).
+    assert (CAP : caligned p0) by (eapply readPtr_caligned; exact ER).
     assert (SD : cvdom (nthv vs i) = true).
     { unfold nthv. eapply forallb_In; [exact Hsd|]. apply nth_In. unfold zlen, nmin, ns in *. lia. }
     change (w_set_rl (dstw D0' cap0 m rl0) InSrc rl1) with (dstw D0' cap0 m rl1) in Hs0.
@@ -224,7 +229,7 @@ Proof.
     { rewrite pointerAddress_eq; rewrite ?Doff, ?Dsz; cbn [DataSize]; destruct Hinv0; unfold zlen, nmin in *; lia. }
     rewrite PA in Hs0.
     destruct (HW D0' cap0 rl1 ((A + 8 * dn) + 8 * i) p0 (nthv vs i) true w0 Hinv0 ltac:(lia) ltac:(lia)
-                 ltac:(unfold nmin in *; lia) WP AP DP SD Hs0) as (word & body & cap2 & rl2 & -> & Hinv2 & Post).
+                 ltac:(unfold nmin in *; lia) WP AP CAP DP SD Hs0) as (word & body & cap2 & rl2 & -> & Hinv2 & Post).
     exists word, body, cap2, rl2. split; [reflexivity|]. split; [exact Hinv2|].
     intros pre' tail Lp Hwd Hbound. apply Post; assumption. }
   destruct (fold_res (iota nmin) (dstw D1 cap m rl) step) as [w2| |] eqn:E1; try discriminate H. cbn [bind] in H.
@@ -288,6 +293,179 @@ Proof.
     exact (PostL pre' tail (eq_trans Lp (eq_sym Ls1)) HsL i ltac:(unfold nmin, zlen in *; lia) Hbound).
 Qed.
 
+(* ------------------------------------------------------------------ data-only lists *)
+(* the copying branch of writePtr for a non-composite list without pointers *)
+Lemma raw_list_copy f D cap rl a src fc w' lt :
+  hinv D -> 0 <= a -> a mod 8 = 0 -> a + 8 <= zlen D ->
+  p_valid src = true -> p_kind src = KList -> p_comp src = false ->
+  (p_bit src || (PointerCount (p_size src) =? 0)) = true ->
+  0 <= p_len src < 536870912 -> 0 <= lt < 7 ->
+  list_raw (mkPtr true 0 (zlen D) (p_len src) (p_size src) maxDepth KList false (p_bit src) false)
+    = Ok (rawListPointer 0 lt (p_len src)) ->
+  (if lt =? 1 then mkOS 0 0 else es_of lt) = p_size src -> (lt =? 1) = p_bit src ->
+  (if lt =? 1 then bitListSize (p_len src) else totalSize (es_of lt) * p_len src) = list_allocSize src ->
+  0 <= p_off src -> p_off src + list_allocSize src <= zlen (seg_of m src) -> zlen (seg_of m src) <= 4294967288 ->
+  write_ptr (S f) true (dstw D cap m rl) 0 a InSrc src fc = Ok w' ->
+  let sz := list_allocSize src in
+  let bs := sub (seg_of m src) (p_off src) sz in
+  exists word pad cap',
+    w' = dstw (put_word D a word ++ (bs ++ repeat 0 pad)) cap' m rl /\ hinv (D ++ (bs ++ repeat 0 pad)) /\
+    forall pre' tail, zlen pre' = zlen D -> word_is pre' a word -> zlen (pre' ++ (bs ++ repeat 0 pad) ++ tail) <= BOUND ->
+      exists rl', readPtr true [pre' ++ (bs ++ repeat 0 pad) ++ tail] 4294967288 0 (pre' ++ (bs ++ repeat 0 pad) ++ tail) a 1
+        = (Ok (mkPtr true 0 (zlen D) (p_len src) (p_size src) (uint_dec 1) KList false (p_bit src) false), rl').
+Proof.
+  intros [Hi1 Hi2] Ha Ham Hab Hv Hk Hc Hraw Hn Hlt Hlr Hes Hbit Hls Ho Hbd Hsl H. cbv zeta.
+  assert (Z0 : 0 <= zlen D) by (unfold zlen; lia).
+  set (sz := list_allocSize src) in *.
+  assert (Hsz : 0 <= sz).
+  { rewrite <- Hls. destruct (lt =? 1); [unfold bitListSize, u32; lia|]. unfold totalSize, u32. nia. }
+  rewrite write_ptr_S in H. rewrite Hv, Hk in H. cbn [negb] in H.
+  replace (fc || is_src InSrc) with true in H by (cbn [is_src]; rewrite Bool.orb_true_r; reflexivity).
+  cbv zeta in H. fold sz in H. cbn [w_dst dstw] in H.
+  destruct (alloc (seg0 D cap) 0 sz) as [[[m1 sid1] addr]| |] eqn:Ea; try discriminate H.
+  pose proof (alloc_bound_pad D cap sz m1 sid1 addr Ea) as Hbound0.
+  destruct (alloc_seg0 D cap sz m1 sid1 addr Hi1 Hsz Ea) as (cap1 & -> & -> & ->).
+  cbn [bind] in H. rewrite Hc, Hraw in H. cbn [bind] in H.
+  unfold copy_bytes in H. cbn [w_segs w_set_dst w_src w_dst dstw] in H.
+  change (nth (Z.to_nat (p_seg src)) m []) with (seg_of m src) in H.
+  rewrite slice_ok in H by lia. cbn [bind] in H.
+  set (bs := sub (seg_of m src) (p_off src) sz) in *.
+  assert (Lbs : zlen bs = sz) by (unfold bs; apply sub_length; lia).
+  assert (P0 : sz <= padToWord sz) by (unfold padToWord, u32; lia).
+  assert (Pm : padToWord sz mod 8 = 0) by (unfold padToWord; lia).
+  unfold lift0 in H. cbn [w_dst] in H.
+  rewrite seg_write_raw in H; [| unfold zlen; lia | rewrite zlen_app; unfold zlen in *; rewrite repeat_length; lia
+                               | rewrite zlen_app; unfold zlen in *; rewrite repeat_length; lia].
+  cbn [bind] in H. rewrite write_bytes_end in H by (unfold zlen in *; lia).
+  set (pad := (Z.to_nat (padToWord sz) - length bs)%nat) in *.
+  set (body := bs ++ repeat 0 pad) in *.
+  assert (Lbody : zlen body = padToWord sz) by (unfold body, pad; rewrite zlen_app; unfold zlen in *; rewrite repeat_length; lia).
+  cbn [bind p_comp p_seg p_off] in H. rewrite Hlr in H. cbn [bind] in H.
+  unfold place in H. cbn [w_dst w_set_dst] in H. change (0 =? 0) with true in H. cbv iota in H. unfold lift0 in H.
+  rewrite writeRaw_seg0 in H by (rewrite ?zlen_app, ?Lbody; lia). cbn [bind] in H.
+  apply Ok_inj in H. subst w'.
+  set (raw := rawListPointer 0 lt (p_len src)) in *.
+  set (word := withOffset raw (nearPointerOffset a (zlen D))) in *.
+  exists word, pad, cap1. fold body.
+  split.
+  { unfold dstw, w_set_dst. cbn [w_src w_src_rl]. f_equal. f_equal. apply put_word_app_left; lia. }
+  split; [split; rewrite zlen_app, Lbody; lia|].
+  intros pre' tail Lp Hw Hbound.
+  set (M := pre' ++ body ++ tail) in *.
+  assert (LM : zlen M = zlen D + padToWord sz + zlen tail) by (unfold M; rewrite !zlen_app, Lbody; lia).
+  assert (Lt0 : 0 <= zlen tail) by (unfold zlen; lia).
+  assert (HwM : word_is M a word) by (unfold word_is, M in *; rewrite sub_app_l by lia; exact Hw).
+  pose proof (elementSize_raw lt (p_len src) Hlt Hn) as Ees.
+  destruct (read_near_list true M a (zlen D) lt (p_len src) 1 Hlt Hn Ha Ham ltac:(lia) ltac:(unfold BOUND in *; lia) Z0 Hi1) as (rl' & RR).
+  - cbv zeta. rewrite Ees. rewrite Hls. fold sz. lia.
+  - exact HwM.
+  - lia.
+  - exists rl'. cbv zeta in RR. rewrite Ees in RR. rewrite Hes, Hbit in RR. exact RR.
+Qed.
+
+Lemma wp_raw_list f D cap rl a src v fc w' :
+  hinv D -> 0 <= a -> a mod 8 = 0 -> a + 8 <= zlen D ->
+  wf_ptr m src -> caligned src -> den true m 0 [] src v ->
+  match v with VBits _ => True | VList k _ => k <> LPtr /\ k <> LComp | _ => False end ->
+  write_ptr (S f) true (dstw D cap m rl) 0 a InSrc src fc = Ok w' ->
+  exists word body cap' rl',
+    w' = dstw (put_word D a word ++ body) cap' m rl' /\ hinv (D ++ body) /\
+    forall pre' tail, zlen pre' = zlen D -> word_is pre' a word -> zlen (pre' ++ body ++ tail) <= BOUND ->
+      reads_as (pre' ++ body ++ tail) a v.
+Proof.
+  intros Hi Ha Ham Hab Hwf Hcal D0 Hdom H.
+  assert (Z0 : 0 <= zlen D) by (unfold zlen; lia).
+  destruct v as [| | |k vs|bits]; try contradiction.
+  - (* void / primitive list *)
+    destruct Hdom as [K1 K2].
+    destruct (den_prim_inv m _ _ _ D0 K1 K2) as (w & Hw & -> & Hv & Hk & Hb & Hc & Hsz & Lvs & K).
+    destruct (Hwf Hv) as (Hseg & Hobj). unfold wf_obj in Hobj. rewrite Hk, Hb, Hsz in Hobj.
+    destruct Hobj as (Ho & Hlen & _ & Hbd).
+    assert (Hts : totalSize (mkOS w 0) = w) by (destruct Hw as [->|[->|[->|[->| ->]]]]; reflexivity).
+    assert (Hw8 : 0 <= w <= 8) by (destruct Hw as [->|[->|[->|[->| ->]]]]; lia).
+    rewrite Hts in Hbd.
+    assert (Hsok : seg_ok (seg_of m src)) by (apply seg_of_ok; assumption).
+    assert (Hsl : zlen (seg_of m src) <= 4294967288) by (apply Hsok).
+    set (n := p_len src) in *.
+    assert (Esz : list_allocSize src = n * w).
+    { unfold list_allocSize. rewrite Hv, Hb, Hc, Hsz, Hts. cbn [negb]. fold n.
+      rewrite times_some by (unfold maxSegmentSize; nia). lia. }
+    set (lt := if w =? 0 then 0 else if w =? 1 then 2 else if w =? 2 then 3 else if w =? 4 then 4 else 5).
+    assert (Hlt : 0 <= lt < 7 /\ (lt =? 1) = false /\ es_of lt = mkOS w 0)
+      by (unfold lt; destruct Hw as [->|[->|[->|[->| ->]]]]; cbn; repeat split; try reflexivity; lia).
+    destruct Hlt as (Hlt & Hl1 & Hes).
+    destruct (raw_list_copy f D cap rl a src fc w' lt Hi Ha Ham Hab Hv Hk Hc
+                ltac:(rewrite Hb, Hsz; reflexivity) Hlen Hlt) as (word & pad & cap' & -> & Hinv & Post); try assumption.
+    + rewrite Hb, Hsz. unfold list_raw, lt. cbn [p_valid p_comp p_bit p_size PointerCount DataSize negb p_len].
+      destruct Hw as [->|[->|[->|[->| ->]]]]; reflexivity.
+    + rewrite Hl1, Hes, Hsz. reflexivity.
+    + rewrite Hl1, Hb. reflexivity.
+    + rewrite Hl1, Hes, Hts, Esz. lia.
+    + rewrite Esz. nia.
+    + cbv zeta in *. rewrite Esz in *.
+      set (bs := sub (seg_of m src) (p_off src) (n * w)) in *.
+      assert (Lbs : zlen bs = n * w) by (unfold bs; apply sub_length; nia).
+      exists word, (bs ++ repeat 0 pad), cap', rl. split; [reflexivity|]. split; [exact Hinv|].
+      intros pre' tail Lp Hwd Hbound.
+      destruct (Post pre' tail Lp Hwd Hbound) as (rl' & RR).
+      set (M := pre' ++ (bs ++ repeat 0 pad) ++ tail) in *.
+      set (q := mkPtr true 0 (zlen D) n (p_size src) (uint_dec 1) KList false (p_bit src) false) in *.
+      exists 1, 4294967288, q, rl'. split; [exact RR|].
+      apply (den_prim true [M] 0 [] q w vs); try reflexivity; try assumption.
+      { intros i Hi0. cbn [q p_len] in Hi0.
+        destruct (K i Hi0) as (d & Sd & Ev).
+        rewrite slice_ok in Sd by (unfold zlen in *; nia). apply Ok_inj in Sd. subst d.
+        exists (sub (seg_of m src) (p_off src + i * w) w). split; [|exact Ev].
+        unfold seg_of. cbn [q p_seg p_off Z.to_nat nth].
+        assert (LM : zlen M = zlen D + zlen (bs ++ repeat 0 pad) + zlen tail) by (unfold M; rewrite !zlen_app; lia).
+        assert (Lb2 : zlen (bs ++ repeat 0 pad) = n * w + Z.of_nat pad) by (rewrite zlen_app, Lbs; unfold zlen; rewrite repeat_length; lia).
+        assert (Lt0 : 0 <= zlen tail) by (unfold zlen; lia).
+        rewrite slice_ok by (unfold BOUND in *; nia). f_equal.
+        unfold M. rewrite sub_app_r by (rewrite ?Lp; nia). rewrite Lp.
+        replace (zlen D + i * w - zlen D) with (i * w) by lia.
+        rewrite sub_app_l by (rewrite ?Lb2; nia). rewrite sub_app_l by nia.
+        unfold bs. apply sub_sub; nia. }
+  - (* bit list *)
+    inversion D0 as [| | |p0 d Hv Hk Hb Hn Sl| | |]; subst p0 bits.
+    assert (Hc : p_comp src = false).
+    { destruct (p_comp src) eqn:E; [|reflexivity]. destruct (Hcal E) as [_ X]. congruence. }
+    destruct (Hwf Hv) as (Hseg & Hobj). unfold wf_obj in Hobj. rewrite Hk, Hb in Hobj.
+    destruct Hobj as (Ho & Hlen & Hsz & Hbd).
+    assert (Hsok : seg_ok (seg_of m src)) by (apply seg_of_ok; assumption).
+    assert (Hsl : zlen (seg_of m src) <= 4294967288) by (apply Hsok).
+    set (n := p_len src) in *.
+    assert (Ebl : bitListSize n = (n + 7) / 8) by (unfold bitListSize, u32; lia).
+    assert (Esz : list_allocSize src = (n + 7) / 8).
+    { unfold list_allocSize. rewrite Hv, Hb. cbn [negb]. exact Ebl. }
+    destruct (raw_list_copy f D cap rl a src fc w' 1 Hi Ha Ham Hab Hv Hk Hc
+                ltac:(rewrite Hb; reflexivity) Hlen ltac:(lia)) as (word & pad & cap' & -> & Hinv & Post); try assumption.
+    + rewrite Hb. reflexivity.
+    + cbn. symmetry. exact Hsz.
+    + cbn. symmetry. exact Hb.
+    + cbn [Z.eqb Pos.eqb]. fold n. rewrite Esz. exact Ebl.
+    + rewrite Esz. lia.
+    + cbv zeta in *. rewrite Esz in *.
+      rewrite Ebl, slice_ok in Sl by lia. apply Ok_inj in Sl. subst d.
+      set (bs := sub (seg_of m src) (p_off src) ((n + 7) / 8)) in *.
+      assert (Lbs : zlen bs = (n + 7) / 8) by (unfold bs; apply sub_length; lia).
+      exists word, (bs ++ repeat 0 pad), cap', rl. split; [reflexivity|]. split; [exact Hinv|].
+      intros pre' tail Lp Hwd Hbound.
+      destruct (Post pre' tail Lp Hwd Hbound) as (rl' & RR).
+      set (M := pre' ++ (bs ++ repeat 0 pad) ++ tail) in *.
+      set (q := mkPtr true 0 (zlen D) n (p_size src) (uint_dec 1) KList false (p_bit src) false) in *.
+      exists 1, 4294967288, q, rl'. split; [exact RR|].
+      replace (bits_of (Z.to_nat n) bs) with (bits_of (Z.to_nat (p_len q)) bs) by reflexivity.
+      apply den_bits; try reflexivity; try assumption.
+      unfold seg_of. cbn [q p_seg p_off p_len Z.to_nat nth]. rewrite Ebl.
+      assert (LM : zlen M = zlen D + zlen (bs ++ repeat 0 pad) + zlen tail) by (unfold M; rewrite !zlen_app; lia).
+      assert (Lb2 : zlen (bs ++ repeat 0 pad) = (n + 7) / 8 + Z.of_nat pad) by (rewrite zlen_app, Lbs; unfold zlen; rewrite repeat_length; lia).
+      assert (Lt0 : 0 <= zlen tail) by (unfold zlen; lia).
+      rewrite slice_ok by (unfold BOUND in *; lia). f_equal.
+      unfold M. rewrite sub_app_r by (rewrite ?Lp; lia). rewrite Lp, Z.sub_diag.
+      rewrite sub_app_l by (rewrite ?Lb2; lia). rewrite sub_app_l by lia.
+      unfold sub. cbn [Z.to_nat skipn]. apply firstn_all2. unfold zlen in Lbs. lia.
+Qed.
+
 (* den of a struct of the single segment M from its block: data words and pointer slots *)
 Lemma struct_den M q A dn pn dws vs' :
   p_valid q = true -> p_kind q = KStruct -> p_seg q = 0 -> p_off q = A -> p_size q = mkOS (8 * dn) pn ->
@@ -313,7 +491,8 @@ Qed.
 
 Lemma wp_step f : P_cs f -> P_wp (S f).
 Proof.
-  intros HC D cap rl a src v fc w' Hi Ha Ham Hab Hwf Hal D0 Hsd H.
+  intros HC D cap rl a src v fc w' Hi Ha Ham Hab Hwf Hal Hcal D0 Hsd H.
+  pose proof H as H0. pose proof Hi as Hinv0.
   destruct Hi as [Hi1 Hi2]. assert (Z0 : 0 <= zlen D) by (unfold zlen; lia).
   rewrite write_ptr_S in H.
   destruct (p_valid src) eqn:Hv; cbn [negb] in H.
@@ -325,8 +504,11 @@ Proof.
     intros pre' tail Lp Hw Hbound. cbn [app] in *.
     apply reads_null; try (rewrite zlen_app in *; unfold zlen in *; lia).
     unfold word_is in *. rewrite sub_app_l by lia. exact Hw. }
-  destruct v as [| |ws vs| |]; try discriminate Hsd.
+  destruct v as [| |ws vs|k vs|bits]; try discriminate Hsd.
   { pose proof (den_null_iff _ _ _ _ _ _ D0) as Hn. rewrite Hv in Hn. discriminate. }
+  2:{ apply (wp_raw_list f D cap rl a src (VList k vs) fc w'); try assumption.
+      destruct k; try discriminate Hsd; split; discriminate. }
+  2:{ apply (wp_raw_list f D cap rl a src (VBits bits) fc w'); try assumption. exact I. }
   assert (Hk : p_kind src = KStruct) by (inversion D0; subst; congruence).
   rewrite Hk in H.
   destruct (den_struct_inv _ _ _ _ _ _ D0 Hv Hk) as (d & vs0 & Ev & Wz & Sl & Lvs & _).
@@ -440,9 +622,78 @@ Theorem P_all : forall f, P_wp f /\ P_cs f.
 Proof.
   induction f as [|f [IHw IHc]].
   - split.
-    + intros D cap rl a src v fc w' _ _ _ _ _ _ _ _ H. discriminate H.
+    + intros D cap rl a src v fc w' _ _ _ _ _ _ _ _ _ H. discriminate H.
     + intros D cap rl dst s ws vs A dn pn w' _ _ _ _ _ _ _ _ _ _ _ _ _ H. discriminate H.
   - split; [apply wp_step; exact IHc| apply cs_step; exact IHw].
 Qed.
 
 End Copy.
+
+(* ------------------------------------------------------------------ closed statements *)
+(* SetPtr / SetRoot / PointerList.Set of a pointer of another message (deep copy): afterwards the
+   slot reads as a pointer denoting the source's value *)
+Theorem copy_value_ptr : forall m f D cap rl a src v fc w',
+  msg_ok m -> hinv D -> 0 <= a -> a mod 8 = 0 -> a + 8 <= zlen D ->
+  wf_ptr m src -> aligned src -> caligned src -> den true m 0 [] src v -> cvdom v = true ->
+  write_ptr f true (dstw D cap m rl) 0 a InSrc src fc = Ok w' ->
+  exists D' cap' rl', w' = dstw D' cap' m rl' /\ hinv D' /\ reads_as D' a v.
+Proof.
+  intros m f D cap rl a src v fc w' Hm Hi Ha Ham Hab Hwf Hal Hcal D0 Hsd H.
+  destruct (P_all m Hm f) as [HW _].
+  destruct (HW D cap rl a src v fc w' Hi Ha Ham Hab Hwf Hal Hcal D0 Hsd H) as (word & body & cap' & rl' & -> & Hinv & Post).
+  assert (Lp : zlen (put_word D a word) = zlen D) by (apply put_word_length; lia).
+  exists (put_word D a word ++ body), cap', rl'. split; [reflexivity|].
+  assert (Hinv' : hinv (put_word D a word ++ body)) by (unfold hinv in *; rewrite zlen_app in *; rewrite Lp; exact Hinv).
+  split; [exact Hinv'|].
+  specialize (Post (put_word D a word) [] Lp). rewrite app_nil_r in Post. apply Post.
+  - unfold word_is, put_word, sub. rewrite skipn_app, skipn_all2 by (rewrite firstn_length; unfold zlen in *; lia).
+    rewrite firstn_length. replace (Z.to_nat a - Nat.min (Z.to_nat a) (length D))%nat with 0%nat by (unfold zlen in *; lia).
+    cbn [skipn app]. rewrite firstn_app, firstn_all2 by (rewrite le_encode_length; lia).
+    rewrite le_encode_length. cbn [Z.to_nat Pos.to_nat Pos.iter_op Nat.add Nat.sub firstn]. apply app_nil_r.
+  - destruct Hinv' as [_ X]. exact X.
+Qed.
+
+(* copyStruct into an existing struct (List.SetStruct, Struct.CopyFrom; version skew in either
+   direction): the destination struct afterwards denotes the source's value resized to the
+   destination's section sizes *)
+Theorem copy_value_struct : forall m f D cap rl dst s ws vs A dn pn w',
+  msg_ok m -> hinv D -> dst_at dst A dn pn -> p_kind dst = KStruct -> 0 <= A -> A mod 8 = 0 -> 0 <= dn <= 65535 -> 0 <= pn < 65536 ->
+  A + 8 * dn + 8 * pn <= zlen D ->
+  p_valid s = true -> p_kind s = KStruct -> wf_ptr m s -> aligned s ->
+  den true m 0 [] s (VStruct ws vs) -> forallb cvdom vs = true ->
+  copy_struct f true (dstw D cap m rl) dst InSrc s = Ok w' ->
+  exists D' cap' rl', w' = dstw D' cap' m rl' /\ hinv D' /\
+    den true [D'] 0 [] dst (resize (VStruct ws vs) (Z.to_nat dn) (Z.to_nat pn)).
+Proof.
+  intros m f D cap rl dst s ws vs A dn pn w' Hm Hi Hdst Hkd HA HAm Hdn Hpn Hb Hv Hk Hwf Hal D0 Hsd H.
+  destruct (P_all m Hm f) as [_ HC].
+  destruct (HC D cap rl dst s ws vs A dn pn w' Hi Hdst HA HAm Hdn Hpn Hb Hv Hk Hwf Hal D0 Hsd H)
+    as (pwords & kids & cap' & rl' & Lp & -> & Hinv & Post).
+  set (blk := resize_words ws (Z.to_nat dn) ++ pwords) in *.
+  assert (Lblk : zlen blk = dn + pn) by (unfold blk; rewrite zlen_app; unfold zlen; rewrite resize_words_length; unfold zlen in Lp; lia).
+  assert (Ls : zlen (set_slots D A blk) = zlen D) by (apply set_slots_length; [lia|unfold zlen in *; lia]).
+  exists (set_slots D A blk ++ kids), cap', rl'. split; [reflexivity|].
+  assert (Hinv' : hinv (set_slots D A blk ++ kids)) by (unfold hinv in *; rewrite zlen_app in *; rewrite Ls; exact Hinv).
+  split; [exact Hinv'|].
+  assert (Hsub : sub (set_slots D A blk) A (8 * (dn + pn)) = bytes_of_words blk).
+  { rewrite <- Lblk. apply sub_set_slots; [lia|unfold zlen in *; lia]. }
+  specialize (Post (set_slots D A blk) [] Ls Hsub). rewrite app_nil_r in Post.
+  destruct Hdst as (Dv & Dseg & Doff & Dsz). destruct Hinv' as [_ Hbnd].
+  cbn [resize]. destruct Hi as [_ Hi2].
+  destruct (den_struct_inv _ _ _ _ _ _ D0 Hv Hk) as (d & vs0 & Ev & Wz & Sl & Lvs & _).
+  inversion Ev; subst ws vs0; clear Ev.
+  assert (Hbd : bytes_ok d) by (eapply slice_bytes_ok; eassumption).
+  apply (struct_den _ dst A dn pn); try assumption; try lia.
+  - rewrite zlen_app, Ls. assert (0 <= zlen kids) by (unfold zlen; lia). lia.
+  - unfold zlen. rewrite resize_words_length. lia.
+  - unfold resize_words. apply Forall_app. split.
+    + apply Forall_firstn'. apply (wob_w64 (length d)); [lia|exact Hbd].
+    + apply Forall_forall. intros x Hx. apply repeat_spec in Hx. subst x. split; [lia|reflexivity].
+  - rewrite sub_app_l by (rewrite ?Ls; lia).
+    replace (sub (set_slots D A blk) A (8 * dn)) with (sub (sub (set_slots D A blk) A (8 * (dn + pn))) 0 (8 * dn))
+      by (rewrite sub_sub by lia; f_equal; lia).
+    rewrite Hsub. unfold blk. rewrite bow_app, sub_app_l by (unfold zlen; rewrite ?bow_length, ?resize_words_length; lia).
+    unfold sub. cbn [Z.to_nat skipn]. apply firstn_all2. rewrite bow_length, resize_words_length. lia.
+  - unfold zlen. rewrite resize_ptrs_length. lia.
+  - intros i Hi0. apply Post; [exact Hbnd|exact Hi0].
+Qed.
